@@ -28,6 +28,7 @@ Property theorems only.  The argument has three parts.
 -/
 import Arca.Model.RunLoop
 import Arca.Gen.Frame
+import Arca.Proofs.LockFacts
 
 namespace Arca.Props.C14
 open Arca.Model
@@ -102,6 +103,69 @@ theorem frame_covers_run_loop :
       "loopState.resolveExpressions", "loopState.resolveOneOfExpression", "loopState.resolveOptionalExpression",
       "loopState.terminateAllSteps", "loopState.reportError", "loopState.getLastError"].all
         (fun f => Arca.Gen.frameFunctions.contains f)) = true := by decide
+
+/-! ### 1b. what a run acquires from the prepared workflow it gives back — on every path
+
+The frame facts above say that no run WRITES a field of the prepared workflow.  The mutexes are the exception by design:
+`e.inputLock` is state of the prepared workflow that every run changes and must change back.  A run that returns on some
+path with the mutex held (e.g. the path that refuses an invalid input) leaves the prepared workflow different from what
+an isolated first run finds: every later run blocks.  `Arca.Gen.Locks.lockFunctions` lists — from the source, on every
+run — EVERY function of the run loop and the providers that calls `Lock()`; the lock-balance checker
+(`Arca.Model.LockBalance`, sound w.r.t. the path semantics of the skeleton language by
+`Arca.Proofs.LockBalance.balanced_sound`) is evaluated on each of them by the kernel. -/
+
+open Arca.Model.LockBalance in
+/-- soundness of the checker, restated: an accepted token list is followed completely, and every syntactic path through
+    the body (and through every function literal of it that runs elsewhere) that does not end in a panic passes
+    well-balanced lock events and ends with the mutex free -/
+theorem lock_balance_sound (m : String) (toks : List SplitTok) (h : balanced m toks = true) :
+    ∃ b, parse m toks = some b ∧
+      (∀ n p, p ∈ pathsB n b → p.2 ≠ .panic → p.2.exits = true ∧ wellBalanced false p.1) ∧
+      (∀ l ∈ litsB b, ∀ n p, p ∈ pathsB n l → p.2 ≠ .panic → p.2.exits = true ∧ wellBalanced false p.1) :=
+  Arca.Proofs.LockBalance.balanced_sound m toks h
+
+/-- every mutex locked by any function of the run loop / providers is released on every path to a return; the single
+    exception is listed by name (`knownUnbalanced`: the run lock on the launch-failure return of `Execute`, per-run state) -/
+theorem every_lock_released_on_every_path :
+    Arca.Proofs.LockFacts.lockPairs.all
+      (fun p => Arca.Model.LockBalance.balanced p.2.1 p.2.2 || Arca.Proofs.LockFacts.knownUnbalanced.contains (p.1, p.2.1)) = true :=
+  Arca.Proofs.LockFacts.all_locks_released_on_every_path
+
+/-- in particular the lock of the PREPARED workflow: `Execute` takes `e.inputLock` once and releases it on every path -/
+theorem input_lock_balanced_in_execute :
+    Arca.Model.LockBalance.balanced "e.inputLock" (Arca.Proofs.LockFacts.toksOf "workflow_workflow_executableWorkflow_Execute") = true ∧
+    Arca.Model.LockBalance.lockCalls "e.inputLock" (Arca.Proofs.LockFacts.toksOf "workflow_workflow_executableWorkflow_Execute") = 1 :=
+  Arca.Proofs.LockFacts.execute_input_lock_balanced
+
+/-- the facts are about the source: non-empty, every pair contains its `Lock()` call, no labelled jump (a label is not
+    part of a token), every token has a known head, and the heads are the ones the checker reads -/
+theorem lock_facts_meaningful :
+    (Arca.Proofs.LockFacts.lockPairs.all (fun p => decide (1 ≤ Arca.Model.LockBalance.lockCalls p.2.1 p.2.2)) = true ∧
+      Arca.Proofs.LockFacts.lockPairs ≠ []) ∧
+    Arca.Gen.Locks.labeledJumps = [] ∧
+    Arca.Gen.Locks.lockFunctions.all (fun f => Arca.Model.LockBalance.wellSplit f.2.2.2) = true ∧
+    Arca.Gen.Locks.tokenHeads = Arca.Model.LockBalance.tokHeads :=
+  ⟨Arca.Proofs.LockFacts.every_pair_locks, Arca.Proofs.LockFacts.no_labeled_jumps, Arca.Proofs.LockFacts.all_well_split,
+   Arca.Proofs.LockFacts.heads_agree⟩
+
+/-- the token lists the checker read are the regenerated skeletons (`Arca.Gen.Skel`) of the pinned functions -/
+theorem lock_facts_are_the_skeletons :
+    (Arca.Proofs.LockFacts.toksOf "workflow_workflow_executableWorkflow_Execute").map Arca.Model.LockBalance.join =
+      Arca.Gen.Skel.workflow_workflow_executableWorkflow_Execute ∧
+    (Arca.Proofs.LockFacts.toksOf "workflow_workflow_loopState_onStageComplete").map Arca.Model.LockBalance.join =
+      Arca.Gen.Skel.workflow_workflow_loopState_onStageComplete ∧
+    (Arca.Proofs.LockFacts.toksOf "step_plugin_provider_runningStep_ProvideStageInput").map Arca.Model.LockBalance.join =
+      Arca.Gen.Skel.step_plugin_provider_runningStep_ProvideStageInput ∧
+    (Arca.Proofs.LockFacts.toksOf "step_foreach_provider_runningStep_ProvideStageInput").map Arca.Model.LockBalance.join =
+      Arca.Gen.Skel.step_foreach_provider_runningStep_ProvideStageInput :=
+  ⟨Arca.Proofs.LockFacts.execute_tokens, Arca.Proofs.LockFacts.run_loop_tokens.1, Arca.Proofs.LockFacts.plugin_provider_tokens.1,
+   Arca.Proofs.LockFacts.foreach_provider_tokens.1⟩
+
+/-- the known exception is exactly one way out of `Execute` with the per-run lock held -/
+theorem run_lock_exception_is_one_exit :
+    Arca.Model.LockBalance.balanced "l.lock" (Arca.Proofs.LockFacts.toksOf "workflow_workflow_executableWorkflow_Execute") = false ∧
+    Arca.Proofs.LockFacts.unbalancedExits "l.lock" (Arca.Proofs.LockFacts.toksOf "workflow_workflow_executableWorkflow_Execute") = 1 :=
+  Arca.Proofs.LockFacts.execute_run_lock_one_unbalanced_exit
 
 /-! ### 2. clone -/
 
